@@ -15,10 +15,10 @@ TRUSTED = [
 ]
 
 
-def check(ctx, prop, kinds, design, extra_subs=(), extra_trusted=()):
+def check(ctx, prop, kinds, design, extra_subs=(), extra_trusted=(), extra_dirs=()):
     # extra_subs: further sub-harnesses of the property (dicts as for vlib.standard_check), run after klock
     return vlib.standard_check(
-        ctx, ["Kernel", prop], "%s/Properties.v" % prop,
+        ctx, ["Kernel", prop] + list(extra_dirs), "%s/Properties.v" % prop,
         [{"pkg": "klock", "sub": "klock", "kinds": kinds}] + list(extra_subs),
         TRUSTED + list(extra_trusted), design, chk_modules=["MV.%s.Properties" % prop])
 
